@@ -23,25 +23,28 @@ End WithTables.
 
 Section WithOnce.
   Hypothesis O : close_uses_once = true.
+  Hypothesis E : close_returns_early_on_errclosed = false.
 
-  Lemma close_once_tab n ls s :
-    crun close_uses_once (cinit n) ls = Some s -> cfinal s ->
+  Lemma close_once_tab n pre ls s :
+    crun close_uses_once close_returns_early_on_errclosed (cinit n pre) ls = Some s -> cfinal s ->
     fired s = (if n =? 0 then 0 else 1) /\ under s = n /\ nd s = n.
-  Proof. rewrite O. apply close_once. Qed.
+  Proof. rewrite O, E. apply close_once. Qed.
 
-  Lemma close_never_twice_tab n ls s : crun close_uses_once (cinit n) ls = Some s -> fired s <= 1.
-  Proof. rewrite O. apply fired_at_most_once. Qed.
+  Lemma close_never_twice_tab n pre ls s :
+    crun close_uses_once close_returns_early_on_errclosed (cinit n pre) ls = Some s -> fired s <= 1.
+  Proof. rewrite O, E. apply fired_at_most_once. Qed.
 
-  Lemma close_progress_tab n ls s :
-    crun close_uses_once (cinit n) ls = Some s -> ~ cfinal s -> exists l s', cstep close_uses_once s l = Some s'.
-  Proof. rewrite O. apply progress. Qed.
+  Lemma close_progress_tab n pre ls s :
+    crun close_uses_once close_returns_early_on_errclosed (cinit n pre) ls = Some s -> ~ cfinal s ->
+    exists l s', cstep close_uses_once close_returns_early_on_errclosed s l = Some s'.
+  Proof. rewrite O, E. apply progress. Qed.
 End WithOnce.
 
-Lemma active_zero_conns (conns : list (nat * list clabel)) fires :
-  Forall2 (fun c k => fst c >= 1 /\ conn_run (fst c) (snd c) = Some k) conns fires ->
+Lemma active_zero_conns (conns : list (nat * bool * list clabel)) fires :
+  Forall2 (fun c k => fst (fst c) >= 1 /\ conn_run (fst (fst c)) (snd (fst c)) (snd c) = Some k) conns fires ->
   active_after fires = 0%Z.
 Proof.
   intro H. apply active_zero. intros k Hk.
   induction H as [|c k' cs fs [C R] _ IH]; [contradiction|].
-  destruct Hk as [<-|Hk]; [exact (conn_run_one _ _ _ C R) | exact (IH Hk)].
+  destruct Hk as [<-|Hk]; [exact (conn_run_one _ _ _ _ C R) | exact (IH Hk)].
 Qed.
